@@ -88,7 +88,12 @@ func init() {
 			"HTTP/1.0 200 OK\r\nContent-Type: application/activity+json\r\n\r\n{\"stamp\":\"doc\",\"a\":[1,{\"b\":\"}\\\"\"}]}",
 			"HTTP/1.1 203 N\nContent-Type:application/json\n\n{\"stamp\":\"doc\"} trailing",
 			"HTTP/1.0 302 Found\r\nLocation: https://{H0}/{OP}/d0\r\n\r\n",
+			/* a document that also carries a Location (it means nothing there), bare LF, a parameterised type */
+			"HTTP/1.0 201 Created\nLocation: /{OP}/d\nContent-Type: application/ld+json; profile=\"x\"\n\n{\"stamp\":\"doc\"}\n",
+			/* a redirect with two Location lines, the first one relative: in the middle of a chain */
+			"HTTP/1.1 307 T\r\nlocation:/{OP}/d0\r\nLocation: https://{H0}/{OP}/d\r\n\r\n",
 		}
+		decoy := "HTTP/1.0 200 OK\r\nContent-Type: application/activity+json\r\n\r\n{\"stamp\":\"decoy\"}"
 		hows := []string{"eof", "reset", "stall"}
 		count := 0
 		for ci, resp := range corpus {
@@ -103,6 +108,12 @@ func init() {
 				if ci == 2 {
 					routes = append(routes, map[string]any{"h": 1, "path": "/{OP}/r", "resp": resp, "fault": fmt.Sprintf("cut:%d:%s", k, how)})
 					target = "https://{H1}/{OP}/r"
+				} else if ci == 4 {
+					/* head (healthy) -> the cut redirect -> the document; a decoy where a Location cut short points */
+					routes = append(routes, map[string]any{"h": 0, "path": "/{OP}/r", "resp": resp, "fault": fmt.Sprintf("cut:%d:%s", k, how)},
+						map[string]any{"h": 2, "path": "/{OP}/head", "resp": "HTTP/1.0 301 M\r\nLocation: https://{H0}/{OP}/r\r\n\r\n", "fault": ""},
+						map[string]any{"h": 0, "path": "/{OP}/d", "resp": decoy, "fault": ""})
+					target = "https://{H2}/{OP}/head"
 				} else {
 					routes[0] = map[string]any{"h": 0, "path": "/{OP}/d0", "resp": resp, "fault": fmt.Sprintf("cut:%d:%s", k, how)}
 				}
